@@ -64,7 +64,7 @@ out,cases,secs,status,which,known=sys.argv[1:7]
 lvl=int(os.environ.get("STANDIN_EXEC_LEVEL")); n=int(os.environ.get("STANDIN_EXEC_TEXT")); pats=int(os.environ.get("STANDIN_PATS") or 0)
 if which=="mirror":
     rec={"function":"executeDefault (right-to-left arms against left-to-right arms), with the parser/reducer/writer in front of it",
-     "bound":"%d patterns from an abstract syntax with a mirror operation (items = atom a b [ab] [^a] . \\w - \\d x quantifier none * + ? *? +? {2} {1,2} ??; 1-2 items, 3-item sequences and alternations over %s, literals before/after an item, quantified groups (also item+literal bodies), named captures (nested, alternated, looped), atomic groups, ^ $ \\A \\z \\b \\B \\G, the four lookarounds, named backreferences); options None, IgnoreCase, Multiline%s; every text over {a,b,-,1} (over {a,-,\\n} for Multiline) of length 0..%d plus 13 longer texts; every start offset; both directions of the pair"%(pats,"20 items" if lvl>=2 else "12 items",", Singleline|Multiline, IgnoreCase|Multiline, ExplicitCapture" if lvl>=2 else "",n),
+     "bound":"%d patterns from an abstract syntax with a mirror operation (items = atom a b [ab] [^a] . \\w - \\d [^ab] \\W \\s [a-] 1 (?:a|-) [\\w-[a]] x quantifier none * + ? *? +? {2} {1,2} ??; 1-2 items, 3-item sequences and alternations over %s, literals before/after an item, quantified groups (also item+literal bodies), named captures (nested, alternated, looped), atomic groups, ^ $ \\A \\z \\b \\B \\G, the four lookarounds, named backreferences); options None, IgnoreCase, Multiline%s; every text over {a,b,-,1} (over {a,-,\\n} for Multiline) of length 0..%d plus 13 longer texts; every start offset; both directions of the pair"%(pats,"20 items" if lvl>=2 else "12 items",", Singleline|Multiline, IgnoreCase|Multiline, ExplicitCapture" if lvl>=2 else "",n),
      "checks":"find(mirror(P), RightToLeft, reverse(text), n-s) is the mirror image of find(P, text, s): both fail or index' = n-index-length, same length, every capture of every named group mirrored, in the same order"}
 elif which=="groups":
     rec={"function":"the parser's capture numbering (countCaptures, scanGroupOpen, noteCaptureSlot, noteCaptureName, assignNameSlots, assignOrderedNameSlots) and the tables the writer derives from it",
@@ -76,7 +76,7 @@ elif which=="replace":
      "checks":"Replace(input, r, startAt, count) and ReplaceFunc with the same expansion as evaluator equal the fold of the match sequence (FindStringMatchStartingAt + FindNextMatch, first count matches) with all other text kept; Replace with $& is the identity; Split(input, count) for count -1, 2, 3 equals the text between successive matches interleaved with the texts of groups 1.."}
 else:
     rec={"function":"executeDefault under IgnoreCase, with the case handling of parser (addLowercase), tree (addCaseEquivalences), writer and the prefix finders in front of it",
-     "bound":"%d patterns (atoms a b [ab] [^a] [a-b] [^a-b] [a-c-[b]] [\\w-[a]] [\\s\\S-[a]] . - and Latin-1/Cyrillic letters, classes and ranges, x quantifier none * + ? {2}; 1-2 items%s, literals before/after an item, alternations, named backreferences, lookarounds, quantified groups, 11 hand-picked shapes); options IgnoreCase, IgnoreCase|RightToLeft%s; every text over {a,b,-,c} and over {U+00E9,U+0434,a,k} of length 0..%d plus 8 longer texts"%(pats,", 3-item sequences and xy|z with the third item out of 15" if lvl>=2 else "",", IgnoreCase|ECMAScript, IgnoreCase|RE2, IgnoreCase|Multiline" if lvl>=2 else "",n),
+     "bound":"%d patterns (atoms a b [ab] [^a] [a-b] [^a-b] [a-c-[b]] [\\w-[a]] [\\s\\S-[a]] [^ab] (?:a|-) [a-] (?:ab) [^\\W-[a]] [b-k-[c-j]] \\p{Ll} . - and Latin-1/Cyrillic letters, classes and ranges, x quantifier none * + ? {2}; 1-2 items%s, literals before/after an item, alternations, named backreferences, lookarounds, quantified groups, 11 hand-picked shapes); options IgnoreCase, IgnoreCase|RightToLeft%s; every text over {a,b,-,c} and over {U+00E9,U+0434,a,k} of length 0..%d plus 8 longer texts"%(pats,", 3-item sequences and xy|z with the third item out of 15" if lvl>=2 else "",", IgnoreCase|ECMAScript, IgnoreCase|RE2, IgnoreCase|Multiline" if lvl>=2 else "",n),
      "checks":"the result (position, length, every capture) is the same for every case variant of the text (all 2^k variants for texts up to 6 runes) and for the pattern with the case of its letters, class members and range endpoints flipped"}
 rec.update({"labelled":"bounded - not counted as proved","cases":int(cases),"seconds":float(secs),"result":status})
 if known: rec["known_findings"]=known.split("\n")
